@@ -43,6 +43,8 @@ pub enum CovSpec {
     /// approves iff field `i` of the previous header (heap slot 10) is non-zero (or, with the flag, iff it is zero);
     /// 32-byte fields are read as integers
     HeaderField(u8, bool),
+    /// approves iff the coin being spent was created at this height (heap slot 8)
+    CreatedAt(u64),
 }
 
 impl CovSpec {
@@ -83,6 +85,7 @@ impl CovSpec {
                 b.slice(0..n)
             }
             CovSpec::Heavy => Covenant::from_ops(&[PushI(1u8.into()), Loop(30, 2), Loop(20, 1), Noop]).to_bytes(),
+            CovSpec::CreatedAt(h) => Covenant::from_ops(&[LoadImm(8), PushI(U256::from(*h)), Eql]).to_bytes(),
             CovSpec::HeaderField(i, want_zero) => {
                 let mut ops = vec![PushI(U256::from(*i)), LoadImm(10), VRef];
                 if matches!(i, 1 | 3 | 4 | 5 | 9 | 10) {
@@ -133,10 +136,10 @@ impl Wallet {
                 3 => CovSpec::IndexIs(r.below(3) as u8),
                 4 => CovSpec::ValueLt(*r.pick(&[100u128, 1_000_000, 1 << 40])),
                 _ => {
-                    if r.chance(1, 2) {
-                        CovSpec::HeaderField(*r.pick(&[9u8, 6, 1, 4, 3, 7]), r.chance(1, 3))
-                    } else {
-                        CovSpec::TimeLock(height + r.below(3))
+                    match r.below(3) {
+                        0 => CovSpec::HeaderField(*r.pick(&[9u8, 6, 1, 4, 3, 7]), r.chance(1, 3)),
+                        1 => CovSpec::CreatedAt(if r.chance(4, 5) { height } else { height.saturating_sub(1) }),
+                        _ => CovSpec::TimeLock(height + r.below(3)),
                     }
                 }
             };
@@ -147,7 +150,13 @@ impl Wallet {
             12..=13 => CovSpec::AlwaysTrue,
             14 => CovSpec::ValueLt(*r.pick(&[100u128, 1_000_000, 1 << 40])),
             15 => CovSpec::HashLock(r.bytes(3)),
-            16 => CovSpec::TimeLock(height + r.below(3)),
+            16 => {
+                if r.chance(1, 2) {
+                    CovSpec::TimeLock(height + r.below(3))
+                } else {
+                    CovSpec::CreatedAt(if r.chance(4, 5) { height } else { height.saturating_sub(1) })
+                }
+            }
             17 => CovSpec::IndexIs(r.below(3) as u8),
             18 => {
                 if r.chance(1, 2) {
